@@ -10,9 +10,9 @@ CHECKS = {
          "Trusted: lib/uimodel (world ground truth and keymap model written from the readme and the statement). A transition is key + settle (interleavings are C08's); keys the statement does not define while a number is being typed are crash-checked only; the preload window is not judged; history capped at 4 pages; preload_amount >= 1.",
          "DESIGN.md §3 C07"),
  "C08": ("model_checking",
-         "stateless schedule enumeration of the real UI and fan-out code under a cooperative scheduler: depth-first search with replay, preemption bound raised 0,1,2(,3), happens-before fingerprint pruning",
-         "10 UI scenarios (open, feed, keys, resize, link selection, media hook, command line, racing loaders; each goroutine started as main does) and 6 pub-level scenarios (post fan-out, activity, two-page harvest, duplicate authors through the coalescing fetcher, NewSplicer, replenish), every schedule with at most 1 preemption in all of them and at most 2 in most (quick, 30 s per scenario, about 100 000 executions) / up to 3 (thorough, 8 min per scenario): the UI lock is held in every private State method and frame, frames never overlap, no deadlock or panic, loaders finish, frames have the terminal's height, every final state equals that of a non-preemptive (serial) schedule, constructed items are identical in all schedules, one request per URL.",
-         "Scheduling points at Lock, Wait, go, exit, dial and the output callback (sufficient for data-race-free code); plain-memory races the scheduler cannot see are covered indirectly (result determinism) and by a supplement that is sampling, not the deciding step: the same scenario bodies built with -race and run free (3 rounds quick, 40 thorough); a race report is a violation. UI scenarios inline the pub fan-out; the evidence lists the completed bound per scenario and exhaustive=true means every scenario finished bound 1.",
+         "stateless schedule enumeration of the real UI and fan-out code under a cooperative scheduler: depth-first search with replay, preemption bound raised 0,1,2(,3), happens-before fingerprint pruning; vector-clock conflict detection on instrumented field accesses in every explored execution",
+         "11 UI scenarios (open, feed, keys, resize, link selection, media hook, command line, racing loaders, two loaders on one collection; each goroutine started as main does) and 6 pub-level scenarios (post fan-out, activity, two-page harvest, duplicate authors through the coalescing fetcher, NewSplicer, replenish), every schedule with at most 1 preemption in all of them and at most 2 in most (quick, 30 s per scenario, about 100 000 executions) / up to 3 (thorough, 8 min per scenario): the UI lock is held in every private State method and frame, frames never overlap, no deadlock or panic, loaders finish, frames have the terminal's height, every final state equals that of a non-preemptive (serial) schedule, constructed items are identical in all schedules, one request per URL, and no two accesses to a struct field of pub or splicer, one of them a write, are unordered by the execution's happens-before relation.",
+         "Scheduling points at Lock, Wait, go, exit, dial and the output callback (sufficient for data-race-free code); data-race freedom is decided for struct fields of pub and splicer by the conflict detector (accesses rewritten to verifrt.R/Wr by mkoverlay); closure-captured locals, map contents and slice elements are covered indirectly (result determinism) and by a supplement that is sampling, not the deciding step: the same scenario bodies built with -race and run free (3 rounds quick, 40 thorough); a race report is a violation. UI scenarios inline the pub fan-out; the evidence lists the completed bound per scenario and exhaustive=true means every scenario finished bound 1.",
          "DESIGN.md §3 C08, §2.2"),
  "C19": ("exploration",
          "complete enumeration of the colour space and of a configuration grid through the real parser against a reference acceptance predicate; start-up probes of every accepted single and pairwise configuration",
@@ -71,7 +71,7 @@ CHECKS = {
          "DESIGN.md §3 C10"),
  "C12": ("exploration",
          "bounded-exhaustive enumeration of link-bearing documents x attachment lists x hosts x widths; shown numbers parsed from the rendering and compared with SelectLink",
-         "Every HTML forest with <=3 (quick) / <=4 (thorough) nodes over 14 labels in which each link-bearing element has a unique target and label, Markdown/gemtext/plaintext line sequences, posts, activities and actors, attachment lists up to 2/3 of 5 kinds, 8 widths from 1 to 80: numbers shown are exactly 1..N once each, the number next to a label opens that label's target, every target is reachable, and min-int,-1,0,N+1,N+2,max-int open nothing without panicking.",
+         "Every HTML forest with <=3 (quick) / <=4 (thorough) nodes over 14 labels in which each link-bearing element has a unique target and label, Markdown/gemtext/plaintext line sequences, posts, activities and actors, attachment lists up to 2/3 of 5 kinds, 8 widths from 1 to 80: numbers shown are exactly 1..N once each, the number next to a label opens that label's target, every target is reachable, and min-int,-1,0,N+1,N+2,max-int open nothing without panicking. UI part: on one document per media type every k in 0..N+1 is typed (digits + Enter) through the real ui.State with a real exec of a dump program, on a fresh page, after a cancelled number and command, and while the viewer opened for number 1 / N is still running: the hook receives exactly SelectLink(k)'s target.",
          "Trusted: the label/number association (label text immediately before the number after removing blanks and decoration glyphs; underlined text for plain text); the independent walk over the x/net/html tree that lists link-bearing elements (a non-li child of a list is shown as a markup error, not a link); documents have fewer than ten numbered elements.",
          "DESIGN.md §3 C12"),
  "C14": ("exploration",
@@ -91,7 +91,7 @@ CHECKS = {
          "DESIGN.md §3 C13"),
  "C16": ("exploration",
          "complete enumeration of CenterVertically geometries; UI frames from the bounded UI exploration",
-         "All geometries prefix 0..7 x centred 1..7 x suffix 0..7 x height 2..10 (thorough: 0..12 / 1..12 / 0..12 / 2..30) with distinct line tokens: exactly h lines, block centred, rows above/below are the tail of the prefix / head of the suffix, ReplaceLastLine replaces only the last line; plus every frame the real UI emits for heights 2..9, 4 start commands and all key sequences up to length 2/3 over 10 keys (and a resize): exactly as many lines as the terminal has rows.",
+         "All geometries prefix 0..7 x centred 1..7 x suffix 0..7 x height 2..10 (thorough: 0..12 / 1..12 / 0..12 / 2..30) with distinct line tokens: exactly h lines, block centred, rows above/below are the tail of the prefix / head of the suffix, ReplaceLastLine replaces only the last line; plus every frame the real UI emits for heights 2..9, 4 start commands and all key sequences up to length 2/3 over 10 keys, followed by two height changes, each (for the start state and the states one key away) followed by an epilogue of keys that shows command, selection, Loading and normal screens again: exactly as many lines as the terminal has rows.",
          "Trusted: the expected-frame construction in checks/c16/geom.go. UI frames come from the real ui.State over the in-memory peer under the scheduler's default schedule (lib/uidrv, lib/uimodel world).",
          "DESIGN.md §3 C16"),
  "C17": ("exploration",
